@@ -159,6 +159,8 @@ def generate_cases(ctx, stage):
             (r["cfg"], mode, rc, gs, gd, len(cases) - n0, time.time() - t0))
         if rc == 150 or any("Parsing or semantic analysis failed" in e for e in errs):
             raise Infra("TLC could not parse %s: %s" % (r["module"], " | ".join(e.strip()[:300] for e in errs[:2])))
+        if r.get("expect_violation") and not any("is violated" in e for e in errs):
+            raise Infra("defect config %s did not produce the expected counterexample (the toggle is vacuous?)" % r["cfg"])
         if errs and not r.get("expect_violation"):
             # an invariant violation of the DESIGN model (or a TLC failure)
             ctx["design_errors"].append({"cfg": r["cfg"], "errors": errs[:3]})
